@@ -66,6 +66,7 @@ let parse_gostruct s =
 
 (* ---- dialect table ---- *)
 let dialects : (string, (n * codec) list) Hashtbl.t = Hashtbl.create 16
+let enum_tbl : (string, enum) Hashtbl.t = Hashtbl.create 300
 let get_dialect name = if name = "-" then None else
   Some (List.rev (try Hashtbl.find dialects name with Not_found -> failwith ("no dialect " ^ name)))
 
@@ -199,6 +200,22 @@ let handle (fields : string list) : string =
     String.concat " " (List.map (function
       | TEntry e -> "E(" ^ string_of_z e.e_time ^ "#" ^ show_frame e.e_frame ^ ")"
       | TErr _ -> "X") rs)
+  | ["edef"; key; bm; bound; labels; values] ->
+    let ls = if labels = "-" then [] else List.map (fun t -> match split '=' t with
+               | [v; n] -> (n_of_string v, bytes_of_hex n) | _ -> failwith "bad label") (split ',' labels) in
+    let vs = if values = "-" then [] else List.map (fun t -> match split '=' t with
+               | [n; v] -> (bytes_of_hex n, n_of_string v) | _ -> failwith "bad value") (split ',' values) in
+    Hashtbl.replace enum_tbl key { en_bitmask = b01 bm; en_bound = nat_of_int (int_of_string bound); en_labels = ls; en_values = vs };
+    "ok"
+  | ["ert"; key; v] ->
+    let en = Hashtbl.find enum_tbl key in
+    let txt = marshal_text en (n_of_string v) in
+    (match unmarshal_text en txt with
+     | Some back -> hex_of_bytes txt ^ " -> " ^ string_of_n back
+     | None -> hex_of_bytes txt ^ " -> err")
+  | ["eparse"; key; h] ->
+    let en = Hashtbl.find enum_tbl key in
+    (match unmarshal_text en (bytes_of_hex h) with Some v -> "ok " ^ string_of_n v | None -> "err")
   | ["tsmono"; ops] ->
     let ts = List.filter_map (fun op -> match split '@' op with
                                 | [_; now] -> if now = "0" then None else Some (n_of_string now)
